@@ -274,6 +274,17 @@ def run_events(eng, ph, events):
             eng.fail("find-raises", "%s: %s" % (type(exc).__name__, exc))
         exp = [n for n in walked[1:] if n.name == name]
         eng.require(len(res) == len(exp) and all(a is b for a, b in zip(res, exp)), "find-by-name")
+    # every include_self / recurse combination, from the root and from the first element below it
+    starts = [root] + [n for n in walked[1:2]]
+    for st_ in starts:
+        for inc in (False, True):
+            for rec in (False, True):
+                try:
+                    res = list(st_.find(ph.Element, include_self=inc, recurse=rec))
+                except Exception as exc:  # noqa
+                    eng.fail("find-raises", "find(include_self=%s, recurse=%s) raised %s: %s" % (inc, rec, type(exc).__name__, exc))
+                exp = ([st_] if inc else []) + (list(st_.walk()) if rec else list(st_))
+                eng.require(len(res) == len(exp) and all(a is b for a, b in zip(res, exp)), "find-flags", "include_self=%s recurse=%s from %s: %d results, expected %d" % (inc, rec, type(st_).__name__, len(res), len(exp)))
     try:
         res = list(root.find(ph.Tag, classes=["x"]))
     except Exception as exc:  # noqa
